@@ -291,7 +291,7 @@ def named_outputs_cpp(d, pts):
         o = {}
         for key, v in res["results"].get(p, {}).items():
             t = key[0]
-            if t in ("model", "px"):
+            if t in ("model", "px", "cmodel", "cpx", "pPd", "cpPd"):  # incl. values read through const references / named accessors
                 o[(t, key[1])] = v
             elif t in ("G", "pP"):
                 o[(t, st[int(key[1])], st[int(key[2])])] = v
@@ -305,6 +305,10 @@ def named_outputs_cpp(d, pts):
                 o[(t, key[1], key[2])] = v
             elif t == "uP":
                 o[(t, key[1], st[int(key[2])], st[int(key[3])])] = v
+        for s_ in st:
+            for acc in ("pPd", "cpPd"):
+                if (acc, s_) in o and ("pP", s_, s_) in o and o[(acc, s_)] != o[("pP", s_, s_)]:
+                    o[("accessor-mismatch", acc, s_)] = float("nan")  # makes the comparison below fail with a telling key
         outs.append(o)
     return res, outs
 
